@@ -343,7 +343,7 @@ def REACH():
 # ----------------------------------------------------------------------------- workload: the whole table
 def run(ctx):
     rng = ctx.rng
-    reps = 1 if ctx.tier == 'quick' else 4
+    reps = 1 if ctx.tier == 'quick' else 24
     i = 0
     ALLOPS = ARITH + ['eq', 'ne', 'xor', 'or']
     for L in CLASSES:
